@@ -173,7 +173,12 @@ def has_state(shape) -> bool:
     return False
 
 
-OBTAINERS = ["call", "copy", "deepcopy"] + [f"pickle{p}" for p in range(0, pickle.HIGHEST_PROTOCOL + 1)]
+OBTAINERS = (
+    ["call", "copy", "deepcopy"]
+    + [f"pickle{p}" for p in range(0, pickle.HIGHEST_PROTOCOL + 1)]
+    # a Pickler that carries its own (empty) dispatch table instead of copyreg's global one
+    + [f"pickler-own-table{p}" for p in (0, 2, pickle.HIGHEST_PROTOCOL)]
+)
 
 LOOKALIKES = ["MISSING", "None", "False", "0", "empty-str", "empty-tuple", "empty-list", "empty-dict", "always-eq", "forged", "class", "str-MISSING"]
 
@@ -231,10 +236,18 @@ def execute(program, ch: Chooser) -> Result:  # noqa: C901, PLR0912, PLR0915
                 result = copy.copy(original)
             elif how == "deepcopy":
                 result = copy.deepcopy(original)
+            elif how.startswith("pickler-own-table"):
+                import io
+
+                buf = io.BytesIO()
+                pk = pickle.Pickler(buf, protocol=int(how[17:]))
+                pk.dispatch_table = {}
+                pk.dump(original)
+                result = pickle.loads(buf.getvalue())  # nosec
             else:
                 result = pickle.loads(pickle.dumps(original, protocol=int(how[6:])))  # nosec
         except Exception as exc:  # noqa: BLE001
-            if how.startswith("pickle") and has_state(shape):
+            if how.startswith("pickle") and has_state(shape):  # (also "pickler-own-table")
                 skipped = True  # State instances cannot be pickled at all (unrelated to Missing)
             else:
                 viols.append(viol("obtain", f"{how}-raises", "a value", f"{type(exc).__name__}: {exc}"[:160]))
